@@ -115,6 +115,29 @@ pub fn gen_base(w: &World, r: &mut Rng, mix: Mix, proto: Option<Proto>) -> Base 
             2 => i32::MAX,
             _ => r.next() as i32,
         };
+        if r.chance(1, 3) {
+            // a connection: three messages in a row on one protocol instance, the names getting shorter,
+            // empty and longer again (whatever the reader keeps from one message must not show in the next)
+            let l1 = *r.pick(&[4usize, 14, 16, 40, 200, 300]);
+            let l2 = if r.chance(1, 3) { 0 } else { r.below(l1 as u64) as usize };
+            let l3 = r.range(0, 40) as usize;
+            let mut e = Enc::new(proto);
+            e.style(long_form);
+            let mut notes = vec![];
+            let mut first = None;
+            for (k, l) in [l1, l2, l3].into_iter().enumerate() {
+                let nm: Vec<u8> = (0..l).map(|_| b'a' + r.below(26) as u8).collect();
+                let mut cx = GenCtx::new(r, Knobs::small());
+                let body = cx.any_of_type(T_STRUCT, 1);
+                e.message_begin(&nm, r.range(1, 4) as u8, (k as i32 + 1) * 1000 + r.below(100) as i32);
+                e.value(&body);
+                notes.push(format!("{}", l));
+                if first.is_none() {
+                    first = Some(body);
+                }
+            }
+            return Base { proto, level: Level::Envelopes, bytes: e.out, spans: e.spans, note: format!("msgs[{}]", notes.join(",")), tv: first, conforming: false };
+        }
         let mut cx = GenCtx::new(r, knobs);
         let tv = cx.any_of_type(T_STRUCT, 1);
         let mut e = Enc::new(proto);
@@ -1073,13 +1096,24 @@ pub fn unit_c10(w: &World, seed: u64, unit: u64, tier: Tier) -> Vec<Case> {
     };
     if flavour < 2 {
         // nesting: messages, repeated messages, map entries, groups (known and unknown)
-        let depths: Vec<usize> = if tier == Tier::Thorough { vec![1, 50, 90, 99, 100, 101, 110, 150, 300, 1000, 20_000] } else { vec![50, 96, 101, 110, 300, 5_000] };
+        let depths: Vec<usize> = if tier == Tier::Thorough { vec![1, 50, 90, 99, 100, 101, 110, 150, 300, 1000, 20_000] } else { vec![50, 96, 98, 99, 100, 101, 110, 300, 5_000] };
         for d in depths {
-            let d = if d == 101 { d } else if d <= 300 { (d + r.below(7) as usize).max(1) } else { d };
+            let d = if (98..=101).contains(&d) { d } else if d <= 300 { (d + r.below(7) as usize).max(1) } else { d };
             // the documented recursion limit is 100: every nesting construct of 101 or more levels is refused
             // (measured on the unchanged tree: all variants refuse from 101, some accept 100)
             let refused = if d >= 101 { Some(true) } else { None };
+            let leaf = node_leaf_body();
             let variants: Vec<(String, Vec<u8>)> = vec![
+                // the innermost message uses every non-recursive field (packed runs at the deepest legal level)
+                ("pbgen:Node".into(), nest_messages_leaf(1, d, &leaf)),
+                ("pbgen:Node".into(), nest_messages_leaf(2, d, &leaf)),
+                ("pbgenld:Node".into(), {
+                    let b = nest_messages_leaf(1, d, &leaf);
+                    let mut o = vec![];
+                    put_uvarint(&mut o, b.len() as u64);
+                    o.extend_from_slice(&b);
+                    o
+                }),
                 ("pbgen:Node".into(), nest_messages(1, d)),
                 ("pbgen:Node".into(), nest_messages(2, d)),
                 ("pbgenld:Node".into(), {
